@@ -303,6 +303,7 @@ func checkC04(w *World, r *Report) {
 	checkLoadersReturnFileBytes(w, r)
 	checkParseGetsTheSource(w, r, "R04.13")
 	checkWritersWriteEverything(w, r)
+	checkStagedOutputDelivered(w, r)
 }
 
 func onlyDebugRefs(v ssa.Value) bool {
@@ -1220,4 +1221,102 @@ func checkWritersWriteEverything(w *World, r *Report) {
 		})
 	}
 	r.floor("successful returns of Write / WriteString methods", n, 2)
+}
+
+// checkStagedOutputDelivered — R04.15: output collected in a buffer reaches the writer.  A function
+// that is handed an io.Writer and renders into a buffer of its own instead (to deliver all or
+// nothing) passes, on every path to a return that can succeed, a call that involves the writer
+// (buf.WriteTo(w), w.Write(buf.Bytes()), io.Copy(w, buf)).  A branch that returns from the middle —
+// the debug path — leaves the caller with an empty document and a nil error.
+func checkStagedOutputDelivered(w *World, r *Report) {
+	n := 0
+	isWriter := func(t types.Type) bool { return isNamed(t, "io", "Writer") }
+	for _, fn := range w.pkgFuncs() {
+		var out *ssa.Parameter
+		for _, p := range fn.Params {
+			if isWriter(p.Type()) {
+				out = p
+			}
+		}
+		if out == nil || errResultIndex(fn.Signature) < 0 {
+			continue
+		}
+		// renders into something that is not its writer?
+		var staged ssa.Instruction
+		instrsOf(fn, func(in ssa.Instruction) {
+			c, ok := in.(ssa.CallInstruction)
+			if !ok || staged != nil {
+				return
+			}
+			name := ""
+			if c.Common().IsInvoke() {
+				name = c.Common().Method.Name()
+			} else if g := c.Common().StaticCallee(); g != nil && isTwigFn(g) {
+				name = g.Name()
+			}
+			if !strings.Contains(name, "Render") {
+				return
+			}
+			for _, a := range c.Common().Args {
+				if !isWriter(a.Type()) {
+					continue
+				}
+				mi, ok := unspill(a).(*ssa.MakeInterface)
+				if !ok {
+					continue // the writer parameter itself (or another interface value)
+				}
+				if _, isParam := unspill(mi.X).(*ssa.Parameter); isParam {
+					continue
+				}
+				staged = in
+			}
+		})
+		if staged == nil {
+			continue
+		}
+		n++
+		delivers := func(x ssa.Instruction) bool {
+			c, ok := x.(ssa.CallInstruction)
+			if !ok {
+				return false
+			}
+			if _, isDefer := x.(*ssa.Defer); isDefer {
+				return false
+			}
+			if x == staged {
+				return false
+			}
+			if c.Common().IsInvoke() && unspill(c.Common().Value) == ssa.Value(out) {
+				return true
+			}
+			for _, a := range c.Common().Args {
+				if unspill(a) == ssa.Value(out) {
+					return true
+				}
+			}
+			return false
+		}
+		ei := errResultIndex(fn.Signature)
+		bad := ""
+		instrsOf(fn, func(in ssa.Instruction) {
+			ret, ok := in.(*ssa.Return)
+			if !ok || bad != "" {
+				return
+			}
+			res := retResults(ret)
+			if ei < len(res) && errorSurelyNonNil(res[ei], ret.Block()) {
+				return
+			}
+			if found, path := existsPathFromAvoiding(fn, staged, in, delivers, nil); found {
+				bad = w.posOf(ret.Pos()) + " (path " + strings.Join(path, " → ") + ")"
+			}
+		})
+		construct := "output staged in a buffer is handed to the writer before a successful return"
+		if bad == "" {
+			r.ok("R04.15", ssaName(fn), construct, w.posOf(staged.Pos()), "every successful return follows a call that involves the writer", true)
+		} else {
+			r.bad("R04.15", ssaName(fn), construct, w.posOf(staged.Pos()), "the function can return without an error at "+bad+" although what it rendered is still in its own buffer: the caller's writer receives nothing — every byte of the template is missing from the output")
+		}
+	}
+	r.Counts["functions staging output in a buffer of their own"] = n
 }
